@@ -429,6 +429,67 @@ var Injectors = []injector{
 		d.Body = nb
 		return &Fault{Class: "undefined:type-in-path-schema", Msg: []string{"not found"}, DirID: d.ID}
 	}},
+	{"undefined:type-key-shortcut-in-path", func(r Rnd, tree *[]*Dir, ids *int) *Fault {
+		// a property whose key is an undefined type, next to the properties that describe the path variables
+		cands, _ := collect(*tree, func(d, p *Dir) bool {
+			return d.Kw == "Path" && d.BodyKind == "schema" && len(d.Body) >= 3 && d.Body[0] == "{"
+		})
+		if len(cands) == 0 {
+			return nil
+		}
+		d := pick(r, cands)
+		nb := []string{d.Body[0], "  @undefinedType : 1,"}
+		nb = append(nb, d.Body[1:]...)
+		d.Body = nb
+		return &Fault{Class: "undefined:type-key-shortcut-in-path", Msg: []string{"not found"}, DirID: d.ID}
+	}},
+	{"second:Path", func(r Rnd, tree *[]*Dir, ids *int) *Fault {
+		// the Path directive of a URL is cut in two: the second one, after the methods (one of which may have a Path of
+		// its own), describes the last property
+		cands, _ := collect(*tree, func(d, p *Dir) bool {
+			if d.Kw != "URL" {
+				return false
+			}
+			for _, k := range d.Children {
+				if k.Kw == "Path" && k.BodyKind == "schema" && len(k.Body) >= 4 && k.Body[0] == "{" && k.Body[len(k.Body)-1] == "}" {
+					return true
+				}
+			}
+			return false
+		})
+		if len(cands) == 0 {
+			return nil
+		}
+		u := pick(r, cands)
+		var p1 *Dir
+		for _, k := range u.Children {
+			if k.Kw == "Path" {
+				p1 = k
+			}
+		}
+		n := len(p1.Body)
+		last := p1.Body[n-2]
+		prev := p1.Body[n-3]
+		// the line before the last property loses its comma (it stands before the rule comment, if there is one)
+		if i := strings.Index(prev, " //"); i >= 0 && strings.HasSuffix(strings.TrimRight(prev[:i], " "), ",") {
+			prev = strings.TrimSuffix(strings.TrimRight(prev[:i], " "), ",") + prev[i:]
+		} else if strings.HasSuffix(prev, ",") {
+			prev = strings.TrimSuffix(prev, ",")
+		} else {
+			return nil
+		}
+		nb := append([]string(nil), p1.Body[:n-3]...)
+		nb = append(nb, prev, "}")
+		p1.Body = nb
+		*ids++
+		p2 := &Dir{ID: *ids, Kw: "Path", BodyKind: "schema", Body: []string{"{", last, "}"}}
+		// (the directive before it closes its context explicitly, or the new Path would be its child)
+		if k := u.Children[len(u.Children)-1]; k != p1 && isMethodKw(k.Kw) {
+			k.Explicit = "yes"
+		}
+		u.Children = append(u.Children, p2)
+		return &Fault{Class: "second:Path", Msg: []string{msgNotUnique}, DirID: p2.ID}
+	}},
 	{"undefined:tag", func(r Rnd, tree *[]*Dir, ids *int) *Fault {
 		cands, _ := collect(*tree, func(d, p *Dir) bool {
 			if !isMethodKw(d.Kw) && d.Kw != "Method" {
